@@ -111,21 +111,31 @@ def alg_src(desc):
     return "\n".join(out) + "\n"
 
 
-def iteration_space_lines(desc, style):
-    '''Configuration-file lines of the user-defined spaces of the invoke.'''
+def steps_of(desc):
+    '''The configuration files of an element: its `steps` (lists of lines
+    {off, pt, sp}) or, for the single-configuration families, one file with
+    the user-defined spaces of its kernels.'''
+    if desc.get("steps"):
+        return [list(st) for st in desc["steps"]]
     lines, seen = [], set()
     for kern in desc["kernels"]:
-        sp = kern["sp"]
-        if is_builtin(sp):
-            continue
-        key = (kern["off"], kern["pt"], sp["name"])
-        line = ":".join([kern["off"], kern["pt"], sp["name"]] +
-                        [term_text(sp[b], style) for b in ("os", "oe", "is", "ie")])
-        if key in seen:
+        key = (kern["off"], kern["pt"], kern["sp"]["name"])
+        if is_builtin(kern["sp"]) or key in seen:
             continue
         seen.add(key)
-        lines.append(line)
-    return lines
+        lines.append({"off": kern["off"], "pt": kern["pt"], "sp": kern["sp"]})
+    return [lines]
+
+
+def line_text(line, style):
+    sp = line["sp"]
+    return ":".join([line["off"], line["pt"], sp["name"]] +
+                    [term_text(sp[b], style) for b in ("os", "oe", "is", "ie")])
+
+
+def iteration_space_lines(desc, style):
+    '''Configuration-file lines of the (first) configuration of the invoke.'''
+    return [line_text(ln, style) for ln in steps_of(desc)[0]]
 
 
 def config_text(base_cfg, lines):
@@ -141,14 +151,17 @@ def config_text(base_cfg, lines):
     return head + sep + entry + tail
 
 
-def load_config(path):
-    '''(Re)load the PSyclone configuration from path, forgetting user-defined
-    iteration spaces of an earlier case.'''
+def load_config(path, fresh=True):
+    '''Load the PSyclone configuration from path.  fresh: start of a history -
+    forget the process-wide bounds table the way the repository's tests do
+    (GOLoop._bounds_lookup = {}).  Otherwise only the Config singleton is
+    replaced, as when a second configuration file is loaded in one process.'''
     from psyclone.configuration import Config
     from psyclone.gocean1p0 import GOLoop
     from psyclone.domain.gocean import GOceanConstants
-    GOLoop._bounds_lookup.clear()                    # pylint: disable=protected-access
-    GOceanConstants.HAS_BEEN_INITIALISED = False
+    if fresh:
+        GOLoop._bounds_lookup = {}                   # pylint: disable=protected-access
+        GOceanConstants.HAS_BEEN_INITIALISED = False
     Config._instance = None                          # pylint: disable=protected-access
     Config.get(do_not_load_file=True).load(path)
     return Config.get()
@@ -412,47 +425,56 @@ def build_case(args):
         f.write(kern_src(desc))
     with open(os.path.join(workdir, "alg.f90"), "w") as f:
         f.write(alg_src(desc))
-    lines = iteration_space_lines(desc, style)
-    cfg = os.path.join(workdir, "psyclone.cfg")
-    with open(cfg, "w") as f:
-        f.write(config_text(os.path.join(core.REPO, "config", "psyclone.cfg"), lines))
-    rec = {"id": cid, "desc": desc, "config_lines": lines, "progs": [], "status": [],
-           "texts": {}}
-    try:
-        load_config(cfg)
-        Config.get().kernel_output_dir = workdir
-        _, info = parse(os.path.join(workdir, "alg.f90"), api="gocean1.0",
-                        kernel_paths=[workdir])
-    except Exception as err:   # noqa - PSyclone refuses the input itself
-        rec["status"].append({"hist": [], "st": "input_refused",
-                              "why": f"{type(err).__name__}: {err}"[:300]})
-        return rec
+    steps = steps_of(desc)
+    rec = {"id": cid, "desc": desc, "progs": [], "status": [], "texts": {},
+           "config_lines": [[line_text(ln, style + n) for ln in st]
+                            for n, st in enumerate(steps)]}
+    base_cfg = os.path.join(core.REPO, "config", "psyclone.cfg")
     hists = [[]] + sorted(desc["hists"])
-    for hist in hists:
-        st = {"hist": hist, "st": "ok"}
+    for n, lines in enumerate(rec["config_lines"]):
+        step = n + 1
+        tag = f"@{step}" if len(steps) > 1 else ""
+        cfg = os.path.join(workdir, f"psyclone{step}.cfg")
+        with open(cfg, "w") as f:
+            f.write(config_text(base_cfg, lines))
         try:
-            psy = PSyFactory("gocean1.0", distributed_memory=False).create(info)
-            sched = psy.invokes.invoke_list[0].schedule
-            for op in hist:
-                apply_op(sched, op)
-            prog, text = export_invoke(psy)
-            prog["hist"] = hist
-            prog["clb"] = "CLB" in hist
-            rec["progs"].append(prog)
-            if not hist or len(rec["texts"]) < 3:
-                rec["texts"]["+".join(hist) or "baseline"] = text
-        except TransformationError as err:
-            st = {"hist": hist, "st": "refused", "why": str(err.value)[:200]}
-        except (GenerationError, ParseError) as err:
-            st = {"hist": hist, "st": "gen_refused", "why": str(err)[:200]}
-        except Unsupported as err:
-            st = {"hist": hist, "st": "unsupported", "why": str(err)[:200]}
-        except Exception as err:   # noqa - internal error of PSyclone
-            st = {"hist": hist, "st": "crash",
-                  "why": f"{type(err).__name__}: {err}"[:300]}
-        rec["status"].append(st)
-        if not hist and st["st"] != "ok":
-            break                            # no baseline: nothing to compare with
+            load_config(cfg, fresh=(n == 0))
+            Config.get().kernel_output_dir = workdir
+            _, info = parse(os.path.join(workdir, "alg.f90"), api="gocean1.0",
+                            kernel_paths=[workdir])
+        except Exception as err:   # noqa - PSyclone refuses the input itself
+            # (a space name no configuration has defined yet is a refusal)
+            rec["status"].append({"hist": [], "step": step,
+                                  "st": "refused" if len(steps) > 1 else "input_refused",
+                                  "why": f"{type(err).__name__}: {err}"[:300]})
+            continue
+        for hist in hists:
+            st = {"hist": hist, "step": step, "st": "ok"}
+            try:
+                psy = PSyFactory("gocean1.0", distributed_memory=False).create(info)
+                sched = psy.invokes.invoke_list[0].schedule
+                for op in hist:
+                    apply_op(sched, op)
+                prog, text = export_invoke(psy)
+                prog["hist"] = hist
+                prog["clb"] = "CLB" in hist
+                prog["step"] = step
+                prog["isbase"] = not hist
+                prog["tag"] = ("+".join(hist) + tag) if (hist or tag) else ""
+                rec["progs"].append(prog)
+                if not hist or len(rec["texts"]) < 3 or len(steps) > 1:
+                    rec["texts"][prog["tag"] or "baseline"] = text
+            except TransformationError as err:
+                st.update(st="refused", why=str(err.value)[:200])
+            except (GenerationError, ParseError) as err:
+                st.update(st="gen_refused", why=str(err)[:200])
+            except Unsupported as err:
+                st.update(st="unsupported", why=str(err)[:200])
+            except Exception as err:   # noqa - internal error of PSyclone
+                st.update(st="crash", why=f"{type(err).__name__}: {err}"[:300])
+            rec["status"].append(st)
+            if not hist and st["st"] != "ok":
+                break                        # no baseline: nothing to compare with
     return rec
 
 
@@ -464,18 +486,19 @@ def tlc_case(rec):
     offs = {k["off"] for k in desc["kernels"]} - {"go_offset_any"}
     progs, index = [], {}
     for p in rec["progs"]:
-        key = dumps([p["body"], p["subs"], p["clb"]])
-        if key in index:
-            progs[index[key]]["hists"].append("+".join(p["hist"]))
+        key = dumps([p["body"], p["subs"], p["clb"], p["step"]])
+        if key in index and not p["isbase"]:
+            progs[index[key]]["hists"].append(p["tag"])
             continue
-        index[key] = len(progs)
+        index.setdefault(key, len(progs))
         progs.append({"body": p["body"], "subs": p["subs"], "locals": p["locals"],
-                      "members": p["members"], "clb": p["clb"],
-                      "hist": "+".join(p["hist"]), "hists": ["+".join(p["hist"])]})
+                      "members": p["members"], "clb": p["clb"], "step": p["step"],
+                      "isbase": p["isbase"], "hist": p["tag"], "hists": [p["tag"]]})
     return {"id": rec["id"],
             "kernels": [{"off": k["off"], "pt": k["pt"], "sp": k["sp"], "label": labels[n]}
                         for n, k in enumerate(desc["kernels"])],
             "fields": fields_of(desc),
+            "steps": steps_of(desc),
             "goffs": sorted(offs) if offs else ["go_offset_ne", "go_offset_sw"],
             "progs": progs}
 
